@@ -303,6 +303,15 @@ class DocGen:
             if r.random() < 0.15 and not is_list_type(t.of_type):
                 return self.lit_text(t.of_type, d + 1, novar=True)
             return '[' + ', '.join(self.lit_text(t.of_type, d + 1) for _ in range(r.randint(0, 3))) + ']'
+        if is_input_object_type(t) and getattr(t, 'is_one_of', False) and d < 3:
+            # exactly one member; a variable there must be of non-null type (boundary case: a nullable one, which
+            # validation must reject whatever wraps the OneOf type at this position)
+            fname, fdef = r.choice(list(t.fields.items()))
+            if not novar and r.random() < max(self.p_var, 0.3):
+                ts = str(fdef.type).rstrip('!') + ('' if r.random() < max(self.p_boundary, 0.15) else '!')
+                tt = self.type_of_str(ts)
+                return '{' + f'{fname}: $' + self.var(ts, lambda: self.pyval(tt, d + 1)) + '}'
+            return '{' + f'{fname}: {self.lit_text(fdef.type, d + 1, nonnull=True, novar=True)}' + '}'
         if is_input_object_type(t) and not getattr(t, 'is_one_of', False) and d < 3:
             parts = []
             items = list(t.fields.items())
@@ -319,9 +328,11 @@ class DocGen:
         r = self.r
         if is_non_null_type(t):
             return self.pyval(t.of_type, d, literal, nonnull=True)
-        if not nonnull and r.random() < self.p_null:
+        if not nonnull and (r.random() < self.p_null or d > 6):
             return None
         if is_list_type(t):
+            if d > 6:
+                return []
             if r.random() < 0.2:  # single value -> list coercion
                 inner = self.pyval(t.of_type, d + 1, literal)
                 if inner is not None and not isinstance(inner, list):
@@ -329,7 +340,11 @@ class DocGen:
             return [self.pyval(t.of_type, d + 1, literal) for _ in range(r.randint(0, 3))]
         if is_input_object_type(t):
             if getattr(t, 'is_one_of', False):
-                fname, fdef = r.choice(list(t.fields.items()))
+                members = list(t.fields.items())
+                if d > 4:   # recursive OneOf types: head for a member that ends the value
+                    from graphql import get_named_type, is_leaf_type
+                    members = [m for m in members if is_leaf_type(get_named_type(m[1].type)) or is_list_type(m[1].type)] or members
+                fname, fdef = r.choice(members)
                 return {fname: self.pyval(fdef.type, d + 1, literal, nonnull=True)}
             out = {}
             for fname, fdef in t.fields.items():
